@@ -126,7 +126,11 @@ func NewTime(typ types.Type) (Type, bool) {
 		return nil, false
 	}
 	name, isNamed := typ.(*types.Named)
-	isDate := isNamed && strings.Contains(strings.ToLower(name.Obj().Name()), "date")
+	if !isNamed {
+		// an anonymous struct spelled like time.Time : not a time
+		return nil, false
+	}
+	isDate := strings.Contains(strings.ToLower(name.Obj().Name()), "date")
 	isCustomNamed := name.Obj().Pkg().Path() != "time"
 	out := timeT
 	if isDate {
